@@ -49,19 +49,40 @@ mod verif_tape_native {
         img
     }
 
-    /// plays the whole tape; returns the measured pulse lengths (time between EAR edges, playing
+    /// plays the whole tape (`second_pass`: lets the deck run off the end, presses play again and measures
+    /// that second pass instead); returns the measured pulse lengths (time between EAR edges, playing
     /// time only) or an error text
-    fn play_all(img: Vec<u8>, seed: u64, with_stops: bool) -> core::result::Result<Vec<usize>, String> {
+    fn play_all(img: Vec<u8>, seed: u64, with_stops: bool, second_pass: bool) -> core::result::Result<Vec<usize>, String> {
         let mut rng = Rng(seed | 1);
         let mut tape = Tap::from_asset(BufferCursor::new(img)).map_err(|_| "from_asset failed".to_string())?;
         tape.play();
+        // second-pass runs pause exactly once, in the pilot or in the data of the first block, so that the
+        // resume point the deck must forget at the end of the tape is a mid-waveform one
+        let single = if second_pass && with_stops {
+            Some(if rng.next() % 2 == 0 { rng.next() % 2_000_000 } else { 2_060_000 + rng.next() % 2_000 })
+        } else {
+            None
+        };
+        let first = one_pass(&mut tape, &mut rng, with_stops && !second_pass, single)?;
+        if !second_pass {
+            return Ok(first);
+        }
+        // the deck has stopped by itself at the end of the tape: the next play starts again from block 1
+        tape.play();
+        one_pass(&mut tape, &mut rng, false, None)
+    }
+
+    fn one_pass(tape: &mut Tap<BufferCursor<Vec<u8>>>, rng: &mut Rng, with_stops: bool, single: Option<u64>) -> core::result::Result<Vec<usize>, String> {
+        let mut nstep = 0u64;
         let mut pulses = Vec::new();
         let mut level = tape.current_bit();
         let mut since = 0usize;
         let mut total = 0usize;
         let mut idle = 0usize;
         while total < 400_000_000 {
-            if with_stops && rng.next() % 50_000 == 0 {
+            // (only while the deck is running: pressing play after it stopped itself would start the next pass)
+            nstep += 1;
+            if (single == Some(nstep) || (with_stops && rng.next() % 50_000 == 0)) && !tape.can_fast_load() {
                 // stop for a while (time passes, nothing may move), maybe stop / play twice
                 tape.stop();
                 if rng.next() % 2 == 0 {
@@ -95,7 +116,7 @@ mod verif_tape_native {
                     break;
                 }
             }
-            if tape.can_fast_load() && !with_stops && pulses.len() > 10 {
+            if tape.can_fast_load() && pulses.len() > 10 {
                 // the deck stopped by itself at the end of the tape
                 break;
             }
@@ -103,9 +124,10 @@ mod verif_tape_native {
         Ok(pulses)
     }
 
-    fn check(name: &str, blocks: &[Vec<u8>], seed: u64, with_stops: bool) -> usize {
+    fn check(name: &str, blocks: &[Vec<u8>], seed: u64, with_stops: bool, second_pass: bool) -> usize {
         let mut bad = 0;
-        let got = match play_all(image(blocks), seed, with_stops) {
+        let name = &std::format!("{}{}", name, if second_pass { " (second pass after running off the end)" } else { "" })[..];
+        let got = match play_all(image(blocks), seed, with_stops, second_pass) {
             Ok(p) => p,
             Err(e) => {
                 println!("MISMATCH tape={} seed={} stops={}: {}", name, seed, with_stops, e);
@@ -182,8 +204,11 @@ mod verif_tape_native {
         ];
         let mut bad = 0;
         for (name, blocks) in &tapes {
-            bad += check(name, blocks, seed, false);
-            bad += check(name, blocks, seed.wrapping_mul(31).wrapping_add(7), true);
+            bad += check(name, blocks, seed, false, false);
+            bad += check(name, blocks, seed.wrapping_mul(31).wrapping_add(7), true, false);
+            // C12: after the deck ran off the end (with or without pauses on the way) play reproduces the whole tape
+            bad += check(name, blocks, seed.wrapping_mul(17).wrapping_add(3), false, true);
+            bad += check(name, blocks, seed.wrapping_mul(13).wrapping_add(5), true, true);
         }
         assert!(bad == 0, "{} tape run(s) deviate from the standard waveform", bad);
     }
